@@ -41,4 +41,4 @@ def run(out, tier, seed):
 
 
 def replay(out, path):
-    raise vlib.ToolError("re-run `bin/check C10 quick`; cases are regenerated deterministically")
+    c01.replay(out, path, ("C01", "C17", "C10"))
